@@ -772,7 +772,7 @@ func (g *Gen) checkCallPre(ct *Contract, key string, c *ssa.CallCommon, in ssa.I
 		cpkg = g.pkg
 	}
 	pre := st.clone()
-	g.bindLets(ct, vars, pre, pre)
+	g.bindLetsT(ct, vars, pre, pre, true)
 	for i, cl := range ct.Requires {
 		env := g.envAt(pre, pre, cpkg, vars)
 		env.inGoal = true
